@@ -69,7 +69,8 @@ def run(n, seed):
             if outcome(ri) != "ok":
                 raise RuntimeError("instantiate failed in migration set-up: %r" % ri)
             path = r.choice(["v100", "v100", "v100", "v0420", "v0418"])
-            name = r.choice(["staking"] * 8 + ["treasury", "other"])
+            name = r.choice(["staking"] * 8 + ["treasury", "other", "crates.io:staking", "acme:staking", ":staking", "staking:", "liquid-staking",
+                             "Staking", "staking "])
             exact = {"v100": "1.0.0", "v0420": "0.4.20", "v0418": "0.4.18"}[path]
             ver = exact if r.random() < 0.6 else r.choice(VERSIONS)
             stored = {"contract": name, "version": ver}
@@ -210,12 +211,17 @@ def run(n, seed):
             su = bech32.addr("osmo", "tadmin")
             h.reset("treasury", "osmo", bech32.addr("osmo", "treasury-contract", 32))
             h.call({"op": "instantiate", "sender": su, "funds": [], "msg": {"admin": None, "trader": None, "allowed_swap_routes": []}})
-            stored = {"contract": r.choice(["treasury"] * 4 + ["staking"]), "version": r.choice(VERSIONS + ["0.4.19", "0.4.20", "0.4.21", "0.1.0"])}
+            stored = {"contract": r.choice(["treasury"] * 4 + ["staking", "crates.io:treasury", ":treasury", "x:treasury", "treasury:", "Treasury"]), "version": r.choice(VERSIONS + ["0.4.19", "0.4.20", "0.4.21", "0.1.0"])}
             h.call({"op": "rawset", "key": item_key("contract_info"), "value": jhex(stored)})
             rh = h.call({"op": "migrate", "msg": {}})
             rm = d.call({"op": "treasury_migrate", "version": stored})
             stats["cases"] += 1
             stats["signatures"].add(("treasury", outcome(rh), stored["contract"], stored["version"]))
+            if outcome(rh) == "ok" and stored["contract"] != "treasury":
+                case = {"seed": seed * 7919 + i, "contract": "treasury", "stored": stored, "msg": {}}
+                findings.append({"property": "C18", "monitor": "version_gate", "signature": {"path": "treasury"},
+                                 "what": "the treasury migration succeeded from stored contract info %s (another contract's name)" % (stored,),
+                                 "seed": seed * 7919 + i, "events": [case], "event": case})
             if outcome(rh) != outcome(rm["result"]):
                 divs.append({"seed": seed, "channel": "migrate.treasury", "detail": {"stored": stored, "impl": rh, "model": rm["result"]}, "events": []})
     finally:
